@@ -73,8 +73,25 @@ func issue(pub any, nb, na time.Time) *x509.Certificate {
 	return c
 }
 
+// issueNoID signs a certificate that is not an SVID (no URI SAN): the issuer
+// answered, but the answer does not pass validation.
+func issueNoID(pub any, nb, na time.Time) *x509.Certificate {
+	serial++
+	tmpl := &x509.Certificate{
+		SerialNumber: big.NewInt(1000 + serial), Subject: pkix.Name{CommonName: "not-an-svid"},
+		NotBefore: nb, NotAfter: na, KeyUsage: x509.KeyUsageDigitalSignature,
+	}
+	der, err := x509.CreateCertificate(rand.Reader, tmpl, caCert, pub, caKey)
+	if err != nil {
+		panic(err)
+	}
+	c, _ := x509.ParseCertificate(der)
+	return c
+}
+
 var (
 	fixedKey, _ = ecdsa.GenerateKey(elliptic.P256(), rand.Reader)
+	noIDLeaf    = issueNoID(&fixedKey.PublicKey, epoch, epoch.Add(1000*time.Hour))
 	fixedLeaf   = issue(&fixedKey.PublicKey, epoch, epoch.Add(1000*time.Hour))
 )
 
@@ -88,12 +105,23 @@ func newLog() logger.Logger { return quietlog.New() }
 type anchors struct {
 	gen  *int
 	last *[]byte
+	// failNext, when set, makes the next reading fail (and is cleared by it);
+	// failAlways makes every reading fail
+	failNext   *bool
+	failAlways bool
 }
 
 func (anchors) GetX509BundleForTrustDomain(spiffeid.TrustDomain) (*x509bundle.Bundle, error) {
 	return nil, errors.New("unused")
 }
 func (a anchors) CurrentTrustAnchors(context.Context) ([]byte, error) {
+	if a.failAlways {
+		return nil, errors.New("trust anchors unavailable")
+	}
+	if a.failNext != nil && *a.failNext {
+		*a.failNext = false
+		return nil, errors.New("trust anchors unavailable")
+	}
 	if a.gen == nil {
 		return caPEM, nil
 	}
@@ -102,8 +130,8 @@ func (a anchors) CurrentTrustAnchors(context.Context) ([]byte, error) {
 	*a.last = b
 	return b, nil
 }
-func (anchors) Watch(context.Context, chan<- []byte)                {}
-func (anchors) Run(context.Context) error                           { return nil }
+func (anchors) Watch(context.Context, chan<- []byte) {}
+func (anchors) Run(context.Context) error            { return nil }
 
 // ---- part 1: readiness ----
 
@@ -112,10 +140,19 @@ type readyScen struct {
 	getters   int
 	ready     bool
 	ctxCancel bool // Ready's context gets cancelled by another thread
+	// pub: 0 = no WriteIdentityToFile; 'y' = publication works; 'a' = the trust
+	// anchors cannot be read; 'w' = the directory cannot be written (its parent
+	// is a regular file). With 'a'/'w' the initial fetch fails although the
+	// issuer answered.
+	pub byte
 }
 
 func (s readyScen) name() string {
-	return fmt.Sprintf("ready issuer=%c getters=%d ready=%v cancelReady=%v", s.issuer, s.getters, s.ready, s.ctxCancel)
+	n := fmt.Sprintf("ready issuer=%c getters=%d ready=%v cancelReady=%v", s.issuer, s.getters, s.ready, s.ctxCancel)
+	if s.pub != 0 {
+		n += fmt.Sprintf(" publication=%c", s.pub)
+	}
+	return n
 }
 
 func mkReady(s readyScen) *mc.Exec {
@@ -131,11 +168,30 @@ func mkReady(s readyScen) *mc.Exec {
 		gets     = make([]res, s.getters)
 		fetched  bool
 		fetchOK  bool
+		dir      string
 	)
 	body := func() {
 		release := mc.NewChan[struct{}]()
+		var target *string
+		ta := anchors{}
+		if s.pub != 0 {
+			d, err := os.MkdirTemp(os.Getenv("VERIF_SCRATCH"), "c19r-")
+			if err != nil {
+				mc.Fail("mkdtemp: %v", err)
+			}
+			dir = d
+			t := filepath.Join(d, "identity")
+			if s.pub == 'w' {
+				if err := os.WriteFile(filepath.Join(d, "file"), []byte("x"), 0o600); err != nil {
+					mc.Fail("%v", err)
+				}
+				t = filepath.Join(d, "file", "identity")
+			}
+			target = &t
+			ta.failAlways = s.pub == 'a'
+		}
 		sp := spiffe.New(spiffe.Options{
-			Log: newLog(),
+			Log: newLog(), WriteIdentityToFile: target, TrustAnchors: ta,
 			RequestSVIDFn: func(ctx context.Context, csr []byte) ([]*x509.Certificate, error) {
 				defer func() { fetched = true }()
 				switch s.issuer {
@@ -148,7 +204,13 @@ func mkReady(s readyScen) *mc.Exec {
 				if s.issuer == 'f' || s.issuer == 'q' {
 					return nil, errors.New("issuer down")
 				}
-				fetchOK = true
+				if s.issuer == 'v' {
+					return []*x509.Certificate{noIDLeaf}, nil
+				}
+				if s.issuer == 'e' {
+					return []*x509.Certificate{}, nil
+				}
+				fetchOK = s.pub != 'a' && s.pub != 'w'
 				return []*x509.Certificate{fixedLeaf}, nil
 			},
 		})
@@ -183,6 +245,9 @@ func mkReady(s readyScen) *mc.Exec {
 		}
 	}
 	check := func(e *mc.End) error {
+		if dir != "" {
+			defer os.RemoveAll(dir)
+		}
 		if !fetched {
 			return fmt.Errorf("deadlock before the initial fetch finished: parked=%v", e.Parked())
 		}
@@ -224,7 +289,7 @@ type window struct {
 
 type renewScen struct {
 	first    window
-	outcomes string        // per renewal request after the initial one: 'o' ok / 'f' fail
+	outcomes string        // per renewal request after the initial one: 'o' ok / 'f' the issuer fails / 'v' the issuer answers with a certificate that is not an SVID / 'e' with an empty chain / 'a' (publishing only) the trust anchors cannot be read during that fetch
 	next     window        // validity of renewed certificates
 	steps    time.Duration // 0 = event driven (auto clock); else fixed clock step
 	nsteps   int
@@ -256,9 +321,10 @@ func mkRenew(s renewScen) *mc.Exec {
 		anchorGen        int
 		anchorLast       []byte
 		anchorGenAtFetch int
+		anchorFailNext   bool
 	)
 	body := func() {
-		opts := spiffe.Options{Log: newLog(), TrustAnchors: anchors{&anchorGen, &anchorLast}}
+		opts := spiffe.Options{Log: newLog(), TrustAnchors: anchors{gen: &anchorGen, last: &anchorLast, failNext: &anchorFailNext}}
 		if s.publish {
 			d, err := os.MkdirTemp(os.Getenv("VERIF_SCRATCH"), "c19-")
 			if err != nil {
@@ -284,18 +350,37 @@ func mkRenew(s renewScen) *mc.Exec {
 			}
 			idx := n
 			n++
+			if idx > 0 && s.publish && rec.servedAt != nil {
+				// what is published while the loop asks for a renewal (or retries):
+				// the file set of the last successful fetch, whatever failed since
+				rec.files = checkPublished(dir, rec.servedAt, anchorLast)
+			}
 			w := s.next
 			ok := true
+			kind := byte('o')
 			if idx == 0 {
 				w = s.first
 			} else if idx-1 < len(s.outcomes) {
-				ok = s.outcomes[idx-1] == 'o'
+				kind = s.outcomes[idx-1]
+				ok = kind == 'o'
 			} else {
 				// after the scripted outcomes: a long-lived certificate ends the scenario
 				w = window{0, 10000 * time.Hour}
 			}
 			if !ok {
 				log = append(log, rec)
+				t := epoch.Add(now)
+				switch kind {
+				case 'v':
+					return []*x509.Certificate{issueNoID(csr.PublicKey, t.Add(w.nbOff), t.Add(w.naOff))}, nil
+				case 'e':
+					return []*x509.Certificate{}, nil
+				case 'a':
+					if s.publish {
+						anchorFailNext = true
+						return []*x509.Certificate{issue(csr.PublicKey, t.Add(w.nbOff), t.Add(w.naOff))}, nil
+					}
+				}
 				return nil, errors.New("issuer down")
 			}
 			t := epoch.Add(now)
@@ -338,6 +423,9 @@ func mkRenew(s renewScen) *mc.Exec {
 		var oc []string
 		for i, r := range log {
 			oc = append(oc, fmt.Sprintf("%v:%v", r.at, r.ok))
+			if r.files != "" {
+				return fmt.Errorf("[key=published-files-disturbed-by-a-failed-renewal] at request %d (%v) the published identity is not the one of the last successful fetch, which is the one served: %s", i, r.at, strings.ReplaceAll(r.files, dir, "<dir>"))
+			}
 			if i > 0 {
 				if r.servedAt != cur {
 					return fmt.Errorf("request %d at %v: served SVID is not the last successfully fetched one", i, r.at)
@@ -639,6 +727,21 @@ func scenarios() []hx.Scenario {
 			}
 		}
 	}
+	// the initial fetch fails after the issuer answered: the answer is not an
+	// SVID or empty, or (publishing) the trust anchors cannot be read or the
+	// directory cannot be written; and publication that works
+	for _, v := range []readyScen{
+		{issuer: 'v', getters: 1, ready: true}, {issuer: 'e', getters: 1, ready: true},
+		{issuer: 'o', getters: 1, ready: true, pub: 'a'}, {issuer: 'o', getters: 1, ready: true, pub: 'w'}, {issuer: 'o', getters: 1, ready: true, pub: 'y'},
+		{issuer: 'p', getters: 2, ready: false, pub: 'a'}, {issuer: 'p', getters: 1, ready: true, pub: 'w'}, {issuer: 'v', getters: 2, ready: true},
+	} {
+		s := v
+		out = append(out, hx.Scenario{
+			Name: s.name(), Class: "spiffe/readiness",
+			Opts: mc.Options{MinBound: 2, Bound: 3, TieCost: 1, MaxSteps: 3000, Horizon: time.Hour, AutoClock: false},
+			Mk:   func() *mc.Exec { return mkReady(s) },
+		})
+	}
 	// consumers calling GetX509SVID while renewals happen (race mode): they must
 	// always return, with the SVID served before or after the renewal
 	for _, sleeps := range [][]time.Duration{{59 * time.Second, time.Second}, {60 * time.Second}, {60 * time.Second, 0, 0}, {30 * time.Second, 30 * time.Second, 10 * time.Second}} {
@@ -652,7 +755,7 @@ func scenarios() []hx.Scenario {
 		}
 	}
 	// publication
-	for _, o := range []string{"", "o", "fo", "oo"} {
+	for _, o := range []string{"", "o", "fo", "oo", "v", "vo", "ov", "a", "ao", "fa", "e", "vae", "oavo"} {
 		s := renewScen{first: window{0, 2 * time.Minute}, next: window{0, 2 * time.Minute}, outcomes: o, publish: true}
 		out = append(out, hx.Scenario{
 			Name: s.name(), Class: "spiffe/publication",
